@@ -1,6 +1,7 @@
 package vc
 
 import (
+	"hash/fnv"
 	"fmt"
 	"go/constant"
 	"go/types"
@@ -24,6 +25,7 @@ type Env struct {
 	obs    *[]ObsTerm
 	home   *types.Package // package in which the contract being evaluated was written
 	bound  bool // inside a quantifier: terms mention bound variables
+	binders map[string]bool // names of the SMT binders currently in scope (deterministic binder names must not capture)
 }
 
 // ObsTerm is a sub-expression of a clause with its SMT term (reported from models).
@@ -263,9 +265,22 @@ func (e *Exec) evalSpec(x Expr, env *Env) Val {
 		nb.bound = true
 		n := &nb
 		var binders []string
+		// binder names are a function of the quantified expression: the same clause evaluated at two places (a callee's
+		// postcondition and the caller's identical one) then yields syntactically identical formulas, which the solvers
+		// recognise at once; a name already in scope would capture, so that case falls back to a fresh name
+		qh := shortHash(exprKey(x))
+		nbs := map[string]bool{}
+		for k := range env.binders {
+			nbs[k] = true
+		}
+		n.binders = nbs
 		for _, qv := range x.Vars {
 			s, ty := e.resolveType(qv.Type, nil)
-			name := e.Out.FreshName("q$" + qv.Name)
+			name := "q$" + qv.Name + "$" + qh
+			if nbs[name] {
+				name = e.Out.FreshName("q$" + qv.Name)
+			}
+			nbs[name] = true
 			n = n.with(qv.Name, Val{T: Sym(name), S: s, Ty: ty})
 			binders = append(binders, "("+Sym(name)+" "+string(s)+")")
 		}
@@ -949,7 +964,7 @@ func (e *Exec) evalCall(x ECall, env *Env) Val {
 	}
 	if sf.Body != nil && !(sf.Opaque && !e.reveal[sf.Name]) {
 		// macro expansion in the current state
-		n := &Env{e: e, vars: map[string]Val{}, st: env.st, old: env.old, fr: nil, result: env.result, bound: env.bound, inOld: env.inOld, obs: nil, home: env.home}
+		n := &Env{e: e, vars: map[string]Val{}, st: env.st, old: env.old, fr: nil, result: env.result, bound: env.bound, inOld: env.inOld, obs: nil, home: env.home, binders: env.binders}
 		var sfPkg *types.Package
 		if sf.Pkg != "" {
 			if pk := e.P.ByPath[sf.Pkg]; pk != nil {
@@ -971,7 +986,7 @@ func (e *Exec) evalCall(x ECall, env *Env) Val {
 			}
 			// share large argument terms through a let binding
 			if len(v.T) > 40 && v.S == SBytes {
-				sym := Sym(e.Out.FreshName("lt$" + p.Name))
+				sym := Sym("lt$" + p.Name + "$" + shortHash(v.T))
 				lets = append(lets, "("+sym+" "+v.T+")")
 				v.T = sym
 				n.bound = true // no top-level assertions about terms that mention the let-bound symbol
@@ -1327,6 +1342,60 @@ func (e *Exec) observe(x Expr, v Val, env *Env) {
 }
 
 // ExprString prints a specification expression.
+// exprKey prints an expression completely (quantifiers and lets included): the key for deterministic binder names.
+func exprKey(x Expr) string {
+	switch x := x.(type) {
+	case EUnary:
+		return x.Op + exprKey(x.X)
+	case EBinary:
+		return "(" + exprKey(x.X) + " " + x.Op + " " + exprKey(x.Y) + ")"
+	case ESel:
+		return exprKey(x.X) + "." + x.Name
+	case EIndex:
+		return exprKey(x.X) + "[" + exprKey(x.I) + "]"
+	case ESlice:
+		lo, hi := "", ""
+		if x.Lo != nil {
+			lo = exprKey(x.Lo)
+		}
+		if x.Hi != nil {
+			hi = exprKey(x.Hi)
+		}
+		return exprKey(x.X) + "[" + lo + ":" + hi + "]"
+	case EUpd:
+		return exprKey(x.X) + "[" + exprKey(x.K) + " := " + exprKey(x.V) + "]"
+	case ECall:
+		var as []string
+		for _, a := range x.Args {
+			as = append(as, exprKey(a))
+		}
+		return x.Fun + "(" + strings.Join(as, ", ") + ")"
+	case EOld:
+		return "old(" + exprKey(x.X) + ")"
+	case EQuant:
+		q := "exists"
+		if x.Forall {
+			q = "forall"
+		}
+		var vs []string
+		for _, v := range x.Vars {
+			vs = append(vs, v.Name+" "+v.Type)
+		}
+		return "(" + q + " " + strings.Join(vs, ", ") + " :: " + exprKey(x.Body) + ")"
+	case ELet:
+		return "(let " + x.Name + " = " + exprKey(x.Val) + " in " + exprKey(x.Body) + ")"
+	case EIf:
+		return "(if " + exprKey(x.C) + " then " + exprKey(x.A) + " else " + exprKey(x.B) + ")"
+	}
+	return ExprString(x)
+}
+
+func shortHash(s string) string {
+	h := fnv.New64a()
+	h.Write([]byte(s))
+	return fmt.Sprintf("%x", h.Sum64()&0xffffffffff)
+}
+
 func ExprString(x Expr) string {
 	switch x := x.(type) {
 	case EIdent:
